@@ -31,7 +31,11 @@ struct Case {
 
 fn build(tier: Tier) -> Vec<Case> {
     let mut v = Vec::new();
-    for t in protocol_targets() {
+    // every protocol-level entry point, then the definition-driven entry point once per protocol family: its result is
+    // converted to the generic view (as_json) inside the measured region, as the documentation's examples and the CLI do
+    let mut seen_families = std::collections::BTreeSet::new();
+    let generic: Vec<Target> = dispatch_targets().into_iter().filter(|t| seen_families.insert(super::c09::family_tag(t.family))).collect();
+    for t in protocol_targets().into_iter().chain(generic) {
         if let Some((p, r)) = t.toggles {
             // sections requested and failures surfaced or not: Try/Try and Enforce/Enforce
             if p != r || p == gamedig::protocols::types::GatherToggle::Skip {
@@ -70,7 +74,7 @@ impl Prop for C13 {
     fn case_label(&self, tier: Tier, idx: usize) -> String { cases(tier)[idx].label.clone() }
     fn stall_secs(&self) -> u64 { 60 }
     fn rule(&self) -> String {
-        "case = (entry point, retries, one or two deviations). The reference server is in its seed state; at every receive the \
+        "case = (entry point - every protocol-level one, and the definition-driven one with the conversion to the generic view once per protocol family -, retries, one or two deviations). The reference server is in its seed state; at every receive the \
          menu is the well-formed datagram, every proper prefix, at EVERY offset each of 9 single-byte extremes and each of 8 \
          two/four-byte extremes (FFFF, 7FFF, FF7F, FFFFFFFF, 7FFFFFFF, FFFFFF7F, 80000000, 00000080: u16/u32 maxima and \
          half-maxima in both byte orders), every decimal number replaced by 7 boundary texts (incl. 4294967296 and \
